@@ -637,6 +637,48 @@ func (c *Ctx) modelRules(r *Report, ss *ssa.Function) {
 			{"Description", `call:(*multiTag).Get(new:multiTag, "description")`}, {"value", "call:(reflect.Value).Field(P0, phi{(phi↺ + 1) | 0})"}, {"Name", `call:(*multiTag).Get(new:multiTag, "positional-arg-name")`},
 		})
 		hn := c.fname(h)
+		// a positional's count bounds come from its own field's tag: they are not values carried over from the
+		// previous field of the loop (a variable initialised once before the loop would be)
+		{
+			loops := c.loopsDeep(h)
+			nB := 0
+			for _, fld := range []string{"Required", "RequiredMaximum"} {
+				f := c.Field("Arg", fld)
+				for _, s := range c.storesTo(f) {
+					if !c.actsFor(s.Fn, h) {
+						continue
+					}
+					nB++
+					lp := innermost(loops, s.Store.Block())
+					bad := ""
+					seen := map[ssa.Value]bool{}
+					var walk func(v ssa.Value)
+					walk = func(v ssa.Value) {
+						if v == nil || seen[v] || bad != "" {
+							return
+						}
+						seen[v] = true
+						switch x := v.(type) {
+						case *ssa.Phi:
+							if lp != nil && x.Block() == lp.Header {
+								bad = c.ipos(x)
+								return
+							}
+							for _, e := range x.Edges {
+								walk(e)
+							}
+						case *ssa.Convert:
+							walk(x.X)
+						case *ssa.ChangeType:
+							walk(x.X)
+						}
+					}
+					walk(s.Store.Val)
+					r.Check(lp != nil && bad == "", "MODEL", hn, "Arg."+fld+" is determined by this field's tag alone", c.ipos(s.Store), "no loop-carried value reaches the bound", "the bound can be a value left over from the previous positional field (loop-carried at "+bad+"): a field without a required tag inherits its predecessor's count")
+				}
+			}
+			r.Check(nB >= 2, "MODEL", hn, "positional bound stores found", c.pos(h.Pos()), "Required and RequiredMaximum", fmt.Sprintf("%d", nB))
+		}
 		for _, in := range c.instrs(h, c.isCallTo("(*Command).AddCommand")) {
 			call := in.(*ssa.Call)
 			a := call.Call.Args
